@@ -1275,8 +1275,16 @@ void BSSubIndexTriShape::notifyVerticesDelete(const std::vector<uint16_t>& vertI
 		// Align sub segments
 		size_t j = 0;
 		for (auto& subSegment : segment.subSegments) {
-			if (j == 0)
+			if (j == 0) {
+				// Triangles assigned to the segment itself are stored in front of its sub segments
+				uint32_t numSubPrimitives = 0;
+				for (auto& ss : segment.subSegments)
+					numSubPrimitives += ss.numPrimitives;
+
 				subSegment.startIndex = segment.startIndex;
+				if (segment.numPrimitives > numSubPrimitives)
+					subSegment.startIndex += (segment.numPrimitives - numSubPrimitives) * 3;
+			}
 
 			if (j + 1 >= segment.numSubSegments)
 				continue;
